@@ -36,7 +36,8 @@ func (v verdict) String() string {
 // view is what the classifier knows about the victim.
 type view struct {
 	is13   bool
-	cidLen int // length of the CID the victim expects in inbound tls12_cid records / unified headers (0 = none)
+	cidLen int  // length of the CID the victim expects in inbound tls12_cid records / unified headers (0 = none)
+	est    bool // the victim's handshake has completed (every genuine record is protected from now on)
 }
 
 func isUnifiedFirst(b byte) bool { return b&0xe0 == 0x20 }
@@ -82,6 +83,7 @@ func classify(vw view, d []byte) (string, verdict) {
 	if first == 25 {
 		hdr += vw.cidLen
 	}
+	isCID := first == 25 && vw.cidLen > 0 // without a negotiated CID, 25 is just an unknown content type
 	if len(d) < hdr {
 		return fmt.Sprintf("legacy/short-header/%s", ctClass(first, vw.is13)), mustSurvive
 	}
@@ -95,13 +97,18 @@ func classify(vw view, d []byte) (string, verdict) {
 	if vw.is13 && !known13 {
 		return "record13/first-byte-not-plaintext-type", mustSurvive
 	}
-	if epoch != 0 || first == 25 {
+	if epoch != 0 || isCID {
 		// a protected record (any epoch >= 1, or a tls12_cid record): whatever the victim's key state, bytes
 		// that were not produced with the keys cannot authenticate
 		if first == 20 {
-			// ChangeCipherSpec is the one record pion accepts unprotected in epoch >= 1; RFC 5246 protects
-			// it like any record of that epoch, so an unprotected one "fails authentication" as well
-			return "protected/ccs-unprotected", mustSurvive
+			// ChangeCipherSpec is the one record pion accepts unprotected in epoch >= 1. RFC 5246 protects it
+			// like any record of its epoch, so on an established connection an unprotected one "fails
+			// authentication". During the handshake a ChangeCipherSpec with a non-zero epoch field is read
+			// like any other unauthenticated ChangeCipherSpec: it may abort.
+			if vw.est {
+				return "protected/ccs-unprotected", mustSurvive
+			}
+			return "plain/ccs-epoch-nonzero", mayAbort
 		}
 		return "protected/auth-fail", mustSurvive
 	}
